@@ -224,10 +224,16 @@ func (r *rwRT) pipelineInterp(root *ssa.Function, testMode bool) *Interp {
 }
 
 func (r *rwRT) runPipeline(name string, args []AV, testMode bool) (*gogenRun, error) {
+	return r.runPipelineFrom(nil, name, args, testMode)
+}
+
+// runPipelineFrom starts from a state that already holds heap objects the arguments refer to
+// (option closures capture their argument through a cell).
+func (r *rwRT) runPipelineFrom(st0 *State, name string, args []AV, testMode bool) (*gogenRun, error) {
 	fn := r.w.Func(pathRw, name)
 	r.c.fn(relName(fn))
 	in := r.pipelineInterp(fn, testMode)
-	outs := in.Run(nil, fn, args, nil)
+	outs := in.Run(st0, fn, args, nil)
 	r.account(in)
 	var live []Outcome
 	for _, o := range outs {
@@ -370,6 +376,77 @@ func (r *rwRT) ruleGenHeader() {
 	c.check(err == nil, "GEN.HEADER", "file header constant", pos, "`//go:build !<tag>`, blank line, `// Code generated ... DO NOT EDIT.`: outputs are excluded under the tag and recognised as generated", fmt.Sprint(err))
 }
 
+type wr struct{ name, comment string }
+
+// goGenCustom: GoGen evaluated with a custom build tag and file suffix.
+func (r *rwRT) goGenCustom(pos string, runPrinter func(g *gogenRun, p AV, filename string) (wr, error)) {
+	c := r.c
+	st0 := newState()
+	mkOpt := func(ctor, val string) (AV, error) {
+		fn := r.w.FuncOpt(pathRw, ctor)
+		if fn == nil {
+			return nil, fmt.Errorf("option constructor %s not found", ctor)
+		}
+		in := r.pipelineInterp(fn, false)
+		outs := in.Run(st0, fn, []AV{mkString(val)}, nil)
+		if len(outs) != 1 || outs[0].Panicked || len(outs[0].Ret) != 1 {
+			return nil, fmt.Errorf("%s is not a single straight-line construction", ctor)
+		}
+		st0 = outs[0].St // the closure's captured cell lives in this state
+		return outs[0].Ret[0], nil
+	}
+	tagOpt, e1 := mkOpt("WithBuildTag", "gen")
+	sufOpt, e2 := mkOpt("WithFileSuffix", "src")
+	if e1 != nil || e2 != nil {
+		c.und("GEN.TAG", "custom options", pos, fmt.Sprint(e1, e2))
+		return
+	}
+	st0.Events = nil
+	g, err := r.runPipelineFrom(st0, "GoGen", []AV{mkString("/home/proj/pkg"), SliceV{Elems: []AV{tagOpt, sufOpt}}}, false)
+	if err != nil {
+		c.und("GEN.TAG", "custom options", pos, err.Error())
+		return
+	}
+	var tagLoader AV
+	for _, e := range g.o.St.Events {
+		if e.Kind == "call" && e.Fn != nil && e.Fn.Name() == "WithBuildTag" && len(e.Args) == 1 && tagLoader == nil {
+			tagLoader = e.Args[0]
+		}
+	}
+	if g.print1 == nil || g.print2 == nil || g.filter == nil {
+		c.und("GEN.TAG", "custom options", pos, "printers or file filter not found")
+		return
+	}
+	dir, tmp := "/home/proj/pkg", "/home/proj/pkg_tmp"
+	w1, err1 := runPrinter(g, g.print1, dir+"/a_src.go")
+	var w2 wr
+	var err2 error
+	if err1 == nil {
+		w2, err2 = runPrinter(g, g.print2, w1.name)
+	}
+	lt, _ := asString(tagLoader)
+	h1 := strings.SplitN(w1.comment, "\n", 2)[0]
+	h2 := strings.SplitN(w2.comment, "\n", 2)[0]
+	c.check(err1 == nil && err2 == nil && lt == "gen" && h1 == "//go:build !gen" && h2 == "//go:build !gen", "GEN.TAG", "loader tag = header tag (WithBuildTag(\"gen\"))", pos,
+		"with a custom tag the loader uses it and both stages write the header negating it",
+		fmt.Sprintf("with WithBuildTag(\"gen\") the loader tag is %q, the intermediate header %q, the final header %q (%v %v): outputs carrying another constraint stay visible under the custom tag and are processed again by the next run", lt, h1, h2, err1, err2))
+	c.check(err1 == nil && err2 == nil && w1.name == tmp+"/a.go" && w2.name == dir+"/a.go", "GEN.NAME", "output of a_src.go (WithFileSuffix(\"src\"))", pos, "written as a.go next to its source",
+		fmt.Sprintf("with WithFileSuffix(\"src\") %s is written as %q (intermediate %q)", dir+"/a_src.go", w2.name, w1.name))
+	for _, tc := range []struct {
+		name string
+		want bool
+	}{{"/p/a_src.go", true}, {"/p/a_src_test.go", true}, {"/p/a_co.go", false}} {
+		st := g.o.St.clone()
+		file := st.alloc(&Obj{Kind: 's', Fields: map[string]AV{"Filename": mkString(tc.name)}})
+		outs := g.in.Apply(st, g.filter, []AV{file})
+		got, known := false, false
+		if len(outs) == 1 && !outs[0].Panicked && len(outs[0].Ret) == 1 {
+			got, known = asBool(outs[0].Ret[0])
+		}
+		c.check(known && got == tc.want, "GEN.FILTER", "file "+tc.name+" (WithFileSuffix(\"src\"))", pos, fmt.Sprintf("processed: %v", tc.want), fmt.Sprintf("file filter answers %v (known=%v), expected %v", got, known, tc.want))
+	}
+}
+
 func (r *rwRT) ruleGoGen() {
 	c := r.c
 	c.min("GEN.TAG", 1)
@@ -391,8 +468,7 @@ func (r *rwRT) ruleGoGen() {
 		}
 	}
 	// header: WriteWithComment(filename, comment) inside the printers; evaluate printer 1 on a file
-	type wr struct{ name, comment string }
-	runPrinter := func(p AV, filename string) (wr, error) {
+	runPrinterFor := func(g *gogenRun, p AV, filename string) (wr, error) {
 		st := g.o.St.clone()
 		file := st.alloc(&Obj{Kind: 's', Fields: map[string]AV{"Filename": mkString(filename)}})
 		outs := g.in.Apply(st, p, []AV{mkString(filename), file})
@@ -411,6 +487,7 @@ func (r *rwRT) ruleGoGen() {
 		}
 		return wr{}, fmt.Errorf("printer does not write the file")
 	}
+	runPrinter := func(p AV, filename string) (wr, error) { return runPrinterFor(g, p, filename) }
 	if g.print1 == nil || g.print2 == nil || g.filter == nil {
 		c.und("GEN.NAME", "GoGen stages", pos, "rewrite-stage printer, optimise-stage printer or file filter not found")
 		return
@@ -426,6 +503,10 @@ func (r *rwRT) ruleGoGen() {
 	c.check(err1 == nil && tagLoader != nil && sameAV(tagLoader, tagHeader), "GEN.TAG", "loader tag = header tag", pos,
 		"the rewrite stage loads the package under the very tag the header of its outputs negates ("+suffixDefault+"): outputs are invisible to the next run, sources invisible to normal builds",
 		fmt.Sprintf("the tag given to the loader (%v) and the tag negated in the header (%v) differ: %v", tagLoader, tagHeader, err1))
+	// the same with non-default options: GoGen(dir, WithBuildTag("gen"), WithFileSuffix("src")) — header, loader,
+	// filter and name mapping must all follow the options (a header built from the default tag leaves the outputs
+	// visible to the next run under the custom tag: every declaration is then seen twice)
+	r.goGenCustom(pos, runPrinterFor)
 	// GEN.FILTER: which files are processed
 	for _, tc := range []struct {
 		name string
